@@ -8,7 +8,7 @@ directory and what every transaction against it answered.
                    n ≤ B(cfg) processor executions — no crash, no panic, no timeout;
   and loading itself ended with accept or reject — it neither crashed, panicked nor hung.
 
-`B` is computed from the graphs the connection lists describe (no validation involved): per direction 1 + D + D² + … (depth `dfsFuel + 1`, `D` the largest
+`B` is computed from the graphs the connection lists describe (no validation involved): per direction 1 + D + D² + … + D^N (`N` the number of nodes, `D` the largest
 out-degree), summed over all flows and both directions.
 -/
 namespace LunarVerif.C05
@@ -44,7 +44,7 @@ def bnd (d : Nat) : Nat → Nat
 
 def maxDeg (g : DirGraph) : Nat := g.nodes.foldl (fun m n => max m n.edges.length) 0
 
-def dirBound (g : DirGraph) : Nat := bnd (maxDeg g) (dfsFuel g + 1)
+def dirBound (g : DirGraph) : Nat := bnd (maxDeg g) (depthOf g)
 
 def flowBound (f : Flow) : Nat := dirBound f.req + dirBound f.res
 
